@@ -26,6 +26,7 @@ FAMILIES = {
     'config': 'pvf.contracts.config',
     'registry': 'pvf.contracts.registry',
     'render': 'pvf.contracts.render',
+    'printers': 'pvf.contracts.printers',
 }
 
 
